@@ -24,6 +24,9 @@ def header_rule(C, P, RULE):
             '%s:%d' % (fs.file, fs.line), sample={'fn': 'ArxmlFile::serialize', 'step': 'model.write().set_version(self.version) before serialize_internal'})
 
 
+from flow import op_local
+
+
 def run(ctx):
     C = Check('C17', ctx['tier'], 'other', ctx['seed'])
     P = Program(ctx['facts'])
@@ -54,7 +57,9 @@ def run(ctx):
         # A mask can have holes (items removed and re-introduced), so no ordering / range test on it is equivalent.
         ccb = [cc] + list(P.closures_of(cc))
         bit = any(call_matches(t, r'AutosarVersion>?::compatible$') for x in ccb for pos, t in x.iter_calls()) or \
-            any(st['k'] == 'assign' and st['rv']['k'] == 'bin' and st['rv'].get('op') == 'BitAnd' for x in ccb for pos, st in x.iter_stmts())
+            any(st['k'] == 'assign' and st['rv']['k'] == 'bin' and st['rv'].get('op') == 'BitAnd' and
+                any(op_local(o) in {op_local(s2['dst']) for _p2, s2 in x.iter_stmts() if s2['k'] == 'assign' and s2['rv']['k'] == 'cast'} for o in (st['rv']['a'], st['rv']['b']) if op_local(o) is not None)
+                for x in ccb for pos, st in x.iter_stmts())   # `(target_version as u32) & mask`
         C.check(bit, 'C17-MUST-value', 'CharacterData::check_version_compatibility|enum-verdict-is-the-bit-test',
                 'the enum branch of CharacterData::check_version_compatibility no longer tests the bit of the target version in the item\'s version mask (AutosarVersion::compatible / `&`), which is what the validator does (check_version): masks with holes (items removed and re-introduced) are judged differently by the two',
                 '%s:%d' % (cc.file, cc.line), sample={'fn': 'CharacterData::check_version_compatibility', 'obligation': 'verdict = target bit AND item mask'})
